@@ -814,6 +814,11 @@ def corrupt(rng: random.Random, root: N, pretty: bool, want_type: typing.Optiona
   t = rng.choice(types)
   i, j, t = rng.choice([c for c in cands if c[2] == t])
   value, shape = rng.choice(MALFORMED[t])
+  if t == "time" and rng.random() < 0.15:
+    # HH:MM:SS:FF whose frames field equals the frame rate in force (TTML2: frames < frameRate): boundary of the range check
+    fr = root.get("ttp:frameRate")
+    if fr is None or fr.isdigit():
+      value, shape = "00:00:01:%02d" % int(fr or 30), "frames-equal-frame-rate"
   r1, r0 = copy.deepcopy(root), copy.deepcopy(root)
   n1, n0 = list(r1.walk())[i], list(r0.walk())[i]
   name = n1.attrs[j][0]
